@@ -263,6 +263,24 @@ FrameOK(doc, h, res) ==
 (***************************************************************************)
 (* The machine.                                                            *)
 (***************************************************************************)
+(* Listed deviation "setkeys-identity-ignores-key-names": under SetKeys with two or more keys the   *)
+(* identity of a member is the hash of the SORTED hashes of its key values, so two members of one  *)
+(* array whose key values are permutations of each other across the keys are taken for the same    *)
+(* object (v2/object.go ident: hashes.combine()).                                                  *)
+ValueBag(m, keys) == LET s == [i \in DOMAIN keys |-> m.v[keys[i]]] IN [x \in SeqRange(s) |-> Cardinality({i \in DOMAIN s : s[i] = x})]
+Colliding(m1, m2, keys) ==
+  /\ IsObj(m1) /\ IsObj(m2)
+  /\ \A i \in DOMAIN keys : HasKey(m1, keys[i]) /\ HasKey(m2, keys[i])
+  /\ \E i \in DOMAIN keys : m1.v[keys[i]] # m2.v[keys[i]]
+  /\ ValueBag(m1, keys) = ValueBag(m2, keys)
+RECURSIVE ArrayMembers(_)
+ArrayMembers(n) ==      \* the object members of every array inside n
+  CASE IsArr(n) -> {n.v[i] : i \in {j \in DOMAIN n.v : IsObj(n.v[j])}} \cup UNION {ArrayMembers(n.v[i]) : i \in DOMAIN n.v}
+    [] IsObj(n) -> UNION {ArrayMembers(n.v[key]) : key \in Keys(n)}
+    [] OTHER -> {}
+HasIdentCollision2(a, b, keys) ==
+  LET M == ArrayMembers(a) \cup ArrayMembers(b) IN \E m1, m2 \in M : Colliding(m1, m2, keys)
+
 VARIABLES doc, rest, status
 pvars == <<doc, rest, status>>
 
